@@ -25,6 +25,7 @@ CONSTANTS
   MaxSteps = 8
   RationalOnly = FALSE
   Twins = FALSE
+  SetOnce = FALSE
   Chain = FALSE
   NeedDt = FALSE
   BindLeaves = FALSE
